@@ -38,6 +38,9 @@ TRUSTED_BASE = [
     "harness/extract_srcnaming.py (compile/naming.py: the four pythonize_* functions -> Gen/SrcNaming.lean) and lean/BpProofs/PyPreludeNaming.lean (str.find / strip / upper on ASCII)",
     "harness/extract_srcplugin.py (plugin/models.py: get_map_entry, is_map, is_oneof and eleven members of the four field compiler classes -> Gen/SrcPlugin.lean) and lean/BpProofs/PyPreludePlugin.lean (descriptor objects as the model's FieldP / MsgP)",
     "harness/extract_srcmsg.py (everything around the loops of Message.dump / __len__ / __bytes__ / SerializeToString / load / parse / FromString / __getstate__ / __setstate__ / __reduce__, plus the fixed template that ties the recursive knot by fuel on nesting depth -> Gen/SrcMsg.lean) and lean/BpProofs/PyPreludeMsg.lean",
+    "harness/extract_srcimpre.py (compile/importing.py: the regex of parse_source_type_name PARSED into the regex AST, re.match, the two branches; the head of get_type_reference = the unwrap block, composed with the dispatch fragment -> Gen/SrcImportingRe.lean) and lean/BpProofs/PyPreludeImpRe.lean (re.match = one attempt at position 0, `\\.` = [.], `.` = [^\\n], lstrip, WRAPPER_TYPES through the table regenerated by extract_importing.py)",
+    "harness/extract_srcchan.py (grpc/util/async_channel.py: every method of AsyncChannel as a resumption program, try/finally on every exit path -> Gen/SrcChan.lean) and lean/BpProofs/PyPreludeChan.lean (the command tree, max / range / qsize / `is self.__flush`); the asyncio Queue / Task model of BpModel/Chan.lean stays hand-modelled (CPython is an external), and the task programs of the C12 model are tied to harness/chanloop.py by the lock-step correspondence only",
+    "harness/extract_srcparser.py (plugin/parser.py: traverse / _traverse, the dispatch of read_protobuf_type and read_protobuf_service, the package / file loops of generate_code -> Gen/SrcParser.lean) and lean/BpProofs/PyPreludeParser.lean (descriptor objects as plain values, a generator as the list of what it yields, constructing a compiler object = one registration with its output template, dicts as insertion-ordered association lists, pathlib.Path as a list of parts with exists() as a parameter); validated by harness/tests/check_srcparser.py against the real plugin",
     "that each Lean statement in lean/BpProofs/Props says what the English property says",
 ]
 
